@@ -59,7 +59,7 @@ def handle : List String → String
     | _, _ => "bad-op"
   | ["mecc", i, hex] =>
     match (parseNat? i).bind (fun i => DMEnc.symbols[i]?), parseHex? hex with
-    | some s, some d => showR showHex (DMEnc.encodeECC200 factorSets factors d s false)
+    | some s, some d => showR showHex (DMEnc.encodeECC200 factorSets factors d s)
     | _, _ => "bad-op"
   | ["mecc-norot", i, hex] =>
     match (parseNat? i).bind (fun i => DMEnc.symbols[i]?), parseHex? hex with
@@ -90,7 +90,7 @@ def handle : List String → String
   | ["mfull", i, hex] =>
     match (parseNat? i).bind (fun i => DMEnc.symbols[i]?), parseHex? hex with
     | some s, some d =>
-      match DMEnc.encodeECC200 factorSets factors d s false with
+      match DMEnc.encodeECC200 factorSets factors d s with
       | .error e => showR (fun (_ : Unit) => "") (.error e)
       | .ok cw =>
         let m := DMRef.mappingBits s.symbolDataHeight s.symbolDataWidth cw
